@@ -3,7 +3,7 @@
 From Coq Require Import List Arith Bool Lia.
 Import ListNotations.
 From NV Require Import Vector.Model Vector.Wf Vector.ListLemmas Vector.NodeProofs Vector.VecProofs
-  Vector.ExtendProofs.
+  Vector.ExtendProofs Vector.IterMutProofs.
 
 Lemma skipn_skipn_add : forall {X} b a (l : list X), skipn a (skipn b l) = skipn (b + a) l.
 Proof.
@@ -155,6 +155,23 @@ Proof.
   - unfold Wf.swf. cbn [svec sstart send]. split; [exact W|lia].
   - unfold sl_list. cbn [svec sstart send skipn]. rewrite L, Nat.sub_0_r.
     apply firstn_all2. rewrite N. lia.
+Qed.
+
+(* [Slice::iter_mut]: exactly the elements of the window are replaced *)
+Theorem smap_spec : forall s (f : A -> A), swf s ->
+  exists s', smap B s f = Some s' /\ swf s' /\ sl_list s' = map f (sl_list s).
+Proof.
+  intros s f (W & H1 & H2). pose proof (wf_length B HB _ W) as HLen.
+  destruct (vmap_from_spec B HB f (svec s) (sstart s) (slen s) W) as [Hok _].
+  destruct (Hok ltac:(lia)) as (v' & E & W' & L' & N').
+  unfold smap. rewrite E. eexists. split; [reflexivity|]. split.
+  - unfold Wf.swf. cbn [svec sstart send]. split; [exact W'|lia].
+  - unfold sl_list. cbn [svec sstart send]. rewrite L'.
+    assert (Hf : length (firstn (sstart s) (to_list (svec s))) = sstart s) by (rewrite firstn_length; lia).
+    rewrite <- Hf at 2. rewrite skipn_app_exact. unfold map_take, slen.
+    assert (Hm : length (map f (firstn (send s - sstart s) (skipn (sstart s) (to_list (svec s))))) = send s - sstart s).
+    { rewrite map_length, firstn_length, skipn_length. lia. }
+    rewrite <- Hm at 1. apply firstn_app_exact.
 Qed.
 
 End Slice.
